@@ -15,7 +15,8 @@ RULE = ("(a) decision grid, ENUMERATED: 2^7 attribute switches x exposed prefix 
         "the real handler table of a real Connection; plus objects with each subset of their own hooks, restricted() views "
         "and Service instances. oracle = decision function transcribed from the statement, observed by EFFECT (distinct "
         "sentinels per slot; full state snapshot unchanged on denial). (b) the same decisions end-to-end through netrefs "
-        "(Hypothesis sample). (c) isolation: Hypothesis histories of open/probe/close over up to 5 differently configured "
+        "(Hypothesis sample), and through a FORWARDED proxy: a third party owns the object and lets the middle party do anything; "
+        "the middle party hands its proxy on over a connection with the generated configuration, which alone decides. (c) isolation: Hypothesis histories of open/probe/close over up to 5 differently configured "
         "connections incl. SlaveService; every probe must follow that connection's own configuration and DEFAULT_CONFIG "
         "(with safe_attrs) and the caller's dict must stay untouched. every enumerated combination is distinct; "
         "non-trivial = decided by more than the operation switch alone.")
@@ -435,6 +436,118 @@ def check_wire(case, rec):
     return fails
 
 
+def check_forwarded(case, rec):
+    """three parties: C owns the victim and lets B do anything with it (classic-style); B hands ITS PROXY of the victim on to A over
+    a connection with the generated configuration. What A may do by name is decided by the A-B configuration alone."""
+    import rpyc
+    from rpyc.core.channel import Channel
+    from rpyc.core.protocol import DEFAULT_CONFIG
+    from vlib import simkernel as sk
+    bits, prefix, op, ni, has_name, has_twin = (case["bits"], case["prefix"], case["op"], case["name_index"],
+                                                case["has_name"], case["has_twin"])
+    names = [(c, n) for c, n in name_classes(prefix) if type(n) is str and n]
+    ncls, name = names[ni % len(names)]
+    cfg = cfg_of(bits, prefix, DEFAULT_CONFIG)
+    exp = model(cfg, op, name, has_name, has_twin)
+    rec.case(case, exp[0] in ("deny", "access") and cfg["allow_%sattr" % {"call": "get"}.get(op, op)],
+             ["forwarded-op:" + op, "name:" + ncls, "expect:" + exp[0]])
+    victim, slots = build_victim(name, prefix, has_name, has_twin, False)
+    marker_token = "written-%d" % bits
+    over = dict((sw, bool(bits >> i & 1)) for i, sw in enumerate(SWITCHES))
+    over["exposed_prefix"] = prefix
+    over["sync_request_timeout"] = 60
+    # C resolves names literally (no twin mapping of its own), so that every decision observed is B's
+    anything = dict(allow_all_attrs=True, allow_setattr=True, allow_delattr=True, allow_getattr=True, allow_exposed_attrs=False,
+                    sync_request_timeout=60)
+    holder = {}
+    out = {}
+    k = sk.Kernel()
+    with k.installed():
+        l1, l2 = sk.Link(k), sk.Link(k)
+
+        class Owner(rpyc.Service):
+            def exposed_victim(self):
+                return victim
+
+        taken = {}
+
+        class Taker(rpyc.Service):
+            def exposed_take(self, v):
+                taken["v"] = v
+        a1 = Taker()._connect(Channel(l1.a), {"sync_request_timeout": 60})
+        b1 = rpyc.VoidService()._connect(Channel(l1.b), over)
+        b2 = rpyc.VoidService()._connect(Channel(l2.a), {"sync_request_timeout": 60})
+        c2 = Owner()._connect(Channel(l2.b), anything)
+        holder["b2"] = b2
+
+        def serve(conn):
+            try:
+                conn.serve_all()
+            except sk.KernelAbort:
+                raise
+            except Exception:
+                pass
+
+        def pusher():
+            # the middle party hands its proxy of the victim on (so that obtaining it does not depend on the configuration)
+            b1.root.take(holder["b2"].root.exposed_victim())
+
+        def driver():
+            while "v" not in taken:
+                a1.serve(0.1)
+            v = taken["v"]
+            out["got-victim"] = True
+            try:
+                if op == "get":
+                    getattr(v, name)
+                elif op == "set":
+                    setattr(v, name, marker_token)
+                elif op == "del":
+                    delattr(v, name)
+                else:
+                    getattr(v, name)()
+                out["res"] = ("returned",)
+            except AttributeError:
+                out["res"] = ("AttributeError",)
+            except Exception as ex:
+                out["res"] = ("exc", type(ex).__name__)
+        before = dict(victim.__dict__)
+        k.spawn(serve, b1, name="serve-B1", daemon=True)
+        k.spawn(serve, c2, name="serve-C2", daemon=True)
+        k.spawn(pusher, name="pusher", daemon=True)
+        t = k.spawn(driver, name="driver")
+        k.run()
+        for c_ in (a1, b1, b2, c2):
+            c_._closed = True
+    if not out.get("got-victim"):
+        rec.count("forwarded: victim not obtainable under this configuration")
+        return []           # could not even obtain the victim under this configuration: not a policy decision about `name`
+    rec.count("forwarded: decisions judged")
+    if k.deadlock:
+        return [Failure("deadlock", "forwarded", case, k.deadlock)]
+    got = out.get("res", ("none",))
+    after = dict(victim.__dict__)
+    changed = sorted(k_ for k_ in set(before) | set(after) if before.get(k_) is not after.get(k_) and before.get(k_) != after.get(k_))
+    fails = []
+    key = "%s/%s" % (op, ncls)
+    if exp[0] == "deny":
+        if got[0] != "AttributeError" or changed:
+            fails.append(Failure("forwarded-denied-access", key, case, [got[0], changed]))
+    elif exp[0] == "access":
+        resolved = exp[1]
+        exists = resolved in slots
+        if op in ("get", "call"):
+            ok = (got[0] == "returned" if exists else got[0] == "AttributeError") and not changed
+        elif op == "set":
+            ok = got[0] == "returned" and changed == [resolved] and after.get(resolved) == marker_token
+        else:
+            ok = (got[0] == "returned" and changed == [resolved] and resolved not in after) if exists else \
+                (got[0] == "AttributeError" and not changed)
+        if not ok:
+            fails.append(Failure("forwarded-allowed-access", key, case, [repr(got)[:60], changed], resolved))
+    return fails
+
+
 def wire_cases():
     return st.fixed_dictionaries({"part": st.just("wire"), "bits": st.integers(0, 127), "prefix": st.sampled_from(PREFIXES[:3]),
                                   "op": st.sampled_from(["get", "set", "del", "call"]), "name_index": st.integers(0, 12),
@@ -516,6 +629,7 @@ def plan(tier, scale):
                 out.append({"part": "grid", "prefixes": [prefix], "bits": list(range(lo, lo + 32)), "full": True})
         out.append({"part": "hooks", "bits": [0b0010011, 0b1111111, 0, 0b1100011]})
         out += [{"part": "wire", "n": int(120 * scale)} for _ in range(4)]
+        out += [{"part": "forwarded", "n": int(100 * scale)} for _ in range(3)]
         out += [{"part": "isolation", "n": int(150 * scale)} for _ in range(2)]
     else:
         for prefix in PREFIXES:
@@ -523,6 +637,7 @@ def plan(tier, scale):
                 out.append({"part": "grid", "prefixes": [prefix], "bits": list(range(lo, lo + 16)), "full": True})
         out.append({"part": "hooks", "bits": list(range(0, 128, 3))})
         out += [{"part": "wire", "n": int(2500 * scale)} for _ in range(6)]
+        out += [{"part": "forwarded", "n": int(2000 * scale)} for _ in range(4)]
         out += [{"part": "isolation", "n": int(3000 * scale)} for _ in range(4)]
     return out
 
@@ -537,6 +652,8 @@ def run_shard(desc, seed, rec, tier):
         hooks_grid(rec, desc["bits"])
     elif part == "wire":
         drive(rec, wire_cases(), lambda c: check_wire(c, rec), desc["n"], seed)
+    elif part == "forwarded":
+        drive(rec, wire_cases().map(lambda c: dict(c, part="forwarded")), lambda c: check_forwarded(c, rec), desc["n"], seed)
     else:
         drive(rec, isolation_cases(), lambda c: check_isolation(c, rec), desc["n"], seed)
 
@@ -547,6 +664,8 @@ def replay(case, rec):
     part = case["part"]
     if part == "wire":
         return check_wire(case, rec)
+    if part == "forwarded":
+        return check_forwarded(case, rec)
     if part == "isolation":
         return check_isolation(case, rec)
     if part in ("grid", "hooks"):
